@@ -5,7 +5,7 @@ aux::function<...>. Every use is classified; closures are followed to the call
 that consumes them (post/defer = deferred, dispatch = possibly inline, a
 timer's async_wait = deferred, a slot field, a local, a repository function)."""
 import re
-import q
+import q, simlib
 from simlib import strip_targs, walk, is_node
 
 CLOSURE_BUILDERS = {'std::bind', 'sim::aux::make_malloc', 'boost::beast::bind_handler', 'boost::beast::bind_front_handler',
@@ -192,6 +192,13 @@ def bound_member_functions(fx):
                 if p is not None and p['k'] == 'call' and q.callee_name(p) in ('std::bind', 'boost::beast::bind_handler', 'sim::aux::move_bind', 'boost::beast::bind_front_handler'):
                     dest, via, cons = closure_destination(fn, p)
                     out.setdefault(n['e']['usr'], []).append((dest, fn, n))
+            elif n['k'] == 'lambda':
+                # the same completion written as a lambda whose whole body is one call of a member function
+                for u in q.completion_targets(fn, n):
+                    tg = fx.by_usr(u)
+                    if tg and tg[0].cls and tg[0].file.startswith(simlib.REPO_PREFIX):
+                        dest, via, cons = closure_destination(fn, n)
+                        out.setdefault(u, []).append((dest, fn, n))
     return out
 
 
